@@ -3,6 +3,7 @@ CONSTANTS
   Dev = {}
   NSamp = 3
   EmitReplay = TRUE
+  WithPairs = TRUE
   Ancs = {1, 2}
 INVARIANTS EntriesAreSites Traversal
 CHECK_DEADLOCK FALSE
